@@ -5,7 +5,7 @@ import json
 from . import config as cfg
 from . import gen, hist
 from .refs import RefError, prelude_from_decls
-from .runner import Check, bump, death_of, empty_result, log_hash, stable_hash, sub_rng
+from .runner import Check, sim_ticks, bump, death_of, empty_result, log_hash, stable_hash, sub_rng
 
 STATE_CMDS = ('set-option', 'set-logic', 'declare-sort', 'declare-fun', 'define-fun', 'assert', 'push', 'pop')
 
@@ -106,6 +106,7 @@ class HistCheck(Check):
             raise RuntimeError('harness error from osim: %r' % (death[1],))
         info = {'resp': resp, 'outs': outs, 'prefix_out': prefix_out, 'exception': exc, 'death': death, 'ticks': ticks, 'plan': plan}
         bump(res, 'runs')
+        bump(res, 'sim-ticks', sim_ticks(resp))
         if death or exc:
             if death and death[0] in ('SIGNAL', 'SANITIZER', 'CPU', 'WALL'):
                 # where exactly a memory error strikes may depend on the address-space layout of the server process:
